@@ -21,6 +21,7 @@ SPEC_MODULES = []    # imported spec modules (python modules)
 PRIMS = {}           # name -> Prim (uninterpreted spec primitive)
 INLINE = set()       # qualnames of real functions that are inlined, not contracted
 LEMMAS = {}          # name -> Lemma
+GLOBAL_CONSTS = {}   # qualname of a module global -> type string (a distinguished constant of that type)
 
 
 class Clause:
@@ -91,7 +92,7 @@ class Contract:
                  self_type=None, ghost=None, fresh_result=False, notes='',
                  total=True, locals=None, may_raise_other=False, decreases=None,
                  asserts=(), frame_carries=None, escape_carries=None, hints=(), inst=(),
-                 static_ensures=()):
+                 static_ensures=(), any_kwargs=False):
         self.qualname = qualname
         self.params = dict(params or {})
         self.returns = returns
@@ -114,6 +115,7 @@ class Contract:
         self.hints = list(hints)     # expressions evaluated at every exit (unfolding triggers)
         self.inst = list(inst)       # extra terms at which quantified assumptions are instantiated
         self.frame_carries = frame_carries
+        self.any_kwargs = any_kwargs       # (assumed externals such as functools.partial) accepts any keyword
         self.escape_carries = escape_carries
 
 
@@ -134,7 +136,8 @@ def inline(*qualnames):
 
 class Model:
     def __init__(self, qualname, fields=None, invariant=(), bases=(), iterates=None,
-                 external=False, optional=None, defaults=None, ghost_fields=(), late_fields=()):
+                 external=False, optional=None, defaults=None, ghost_fields=(), late_fields=(),
+                 abstract=False):
         self.qualname = qualname
         self.fields = dict(fields or {})
         self.invariant = [Clause.of(c) for c in invariant]
@@ -145,6 +148,7 @@ class Model:
         self.defaults = dict(defaults or {})     # field -> expression (value at allocation)
         self.ghost_fields = tuple(ghost_fields)
         self.late_fields = tuple(late_fields)
+        self.abstract = abstract         # an interface: no object has exactly this class
 
 
 def model(qualname, **kw):
@@ -210,3 +214,13 @@ def shared_list(name, elem):
 
 def shared_dict(name, k, v):
     return model('dict:' + name, fields={'items': 'Map[%s,%s]' % (k, v)}, external=True)
+
+
+GLOBAL_ALIASES = {}  # name usable in contract clauses -> qualname of the module global
+
+
+def global_const(qualname, ty, alias=None):
+    """A module-level sentinel object (`_marker = object()`): a distinguished constant."""
+    GLOBAL_CONSTS[qualname] = ty
+    if alias:
+        GLOBAL_ALIASES[alias] = qualname
